@@ -19,7 +19,7 @@ pub fn mon_decode<T>(
     label: &str,
     bytes: &[u8],
     param: usize,
-    dec: impl FnOnce(&[u8]) -> Result<T, CodecError>,
+    dec: impl Fn(&[u8]) -> Result<T, CodecError>,
     reenc: impl Fn(&T) -> Result<Vec<u8>, CodecError>,
     hint: impl Fn(&T) -> Option<usize>,
 ) -> Option<T> {
@@ -46,6 +46,31 @@ pub fn mon_decode<T>(
         }
         Ok(Ok(v)) => {
             ctx.counters.inc(&format!("decode_ok.{label}"));
+            // embedding: followed by other bytes, the decoder must stop at the end of its own
+            // encoding (how composite messages use it): exactly the surplus is left over
+            {
+                let extra = 1 + bytes.len() % 3;
+                let mut ext = bytes.to_vec();
+                ext.extend(std::iter::repeat(0x5au8 ^ (bytes.len() as u8)).take(extra));
+                match guard(label, || dec(&ext)) {
+                    Ok(Err(CodecError::BytesLeftOver(k))) if k == extra => ctx.counters.inc("c07.embedding_checked"),
+                    Ok(other) => {
+                        let what = match other {
+                            Ok(_) => "accepted the longer string".to_string(),
+                            Err(e) => format!("answered `{e}`"),
+                        };
+                        ctx.fail(Violation::new(
+                            "C07.exact_length",
+                            format!("{label}|embedding"),
+                            format!("`{label}` accepted {} bytes, but followed by {extra} more bytes it {what} instead of leaving exactly {extra} bytes over", bytes.len()),
+                        ));
+                    }
+                    Err(mut pv) => {
+                        pv.oracle = "C08.panic".into();
+                        ctx.fail(pv);
+                    }
+                }
+            }
             match guard(label, || reenc(&v)) {
                 Ok(Ok(re)) => {
                     if re != bytes {
@@ -82,6 +107,22 @@ pub fn mon_encode<T: Encode>(ctx: &mut Ctx, label: &str, v: &T) -> Option<Vec<u8
                 }
             }
             ctx.counters.inc(&format!("encode.{label}"));
+            // appending: encoding into a buffer that already holds bytes appends exactly the same
+            // encoding and leaves the earlier bytes alone
+            let pre: Vec<u8> = vec![0xc3, 0x00, 0xff, b.len() as u8];
+            let mut buf = pre.clone();
+            match guard(label, || v.encode(&mut buf)) {
+                Ok(Ok(())) => {
+                    if buf.len() != pre.len() + b.len() || buf[..pre.len()] != pre[..] || buf[pre.len()..] != b[..] {
+                        ctx.fail(Violation::new("C07.append", format!("{label}|append"), format!("`{label}`: encode() into a non-empty buffer does not append the encoding get_encoded() returns ({} bytes before, {} after, encoding {} bytes)", pre.len(), buf.len(), b.len())));
+                    }
+                }
+                Ok(Err(e)) => ctx.fail(Violation::new("C07.encode_err", format!("{label}|encode_err_append"), format!("`{label}`: encode() into a non-empty buffer fails: {e}"))),
+                Err(mut pv) => {
+                    pv.oracle = "C07.panic".into();
+                    ctx.fail(pv);
+                }
+            }
             Some(b)
         }
         Ok((Err(e), _)) => {
@@ -91,6 +132,19 @@ pub fn mon_encode<T: Encode>(ctx: &mut Ctx, label: &str, v: &T) -> Option<Vec<u8
         Err(mut pv) => {
             pv.oracle = "C07.panic".into();
             ctx.fail(pv);
+            None
+        }
+    }
+}
+
+/// Decoding of bytes the library itself just produced for an honest value: a failure is the
+/// codec's (C07), never a harness error. Returns None after recording the violation.
+pub fn honest_decode<T>(ctx: &mut Ctx, label: &str, r: Result<T, CodecError>) -> Option<T> {
+    match r {
+        Ok(v) => Some(v),
+        Err(e) => {
+            ctx.counters.inc("honest_bytes_undecodable");
+            ctx.fail(Violation::new("C07.roundtrip", format!("{label}|honest_undecodable"), format!("`{label}`: the encoding the library produced for an honest value does not decode: {e}")));
             None
         }
     }
